@@ -29,6 +29,7 @@ from ..astutil import call_name, calls, dotted, names_in, param_names, stmts, wa
 from ..core import AnalysisError, Mutant
 from ..exprnorm import same_expr
 from ..program import ClassIndex
+from ..exprnorm import has_code
 
 EXPLANATION = (
     "Coupled-state analysis of structure/atoms.py: which function writes which of coord/"
@@ -418,7 +419,7 @@ def run(ctx):
     bc = b.func("BondList.concatenate")
     txt = ast.unparse(bc)
     ctx.ob("R1.bond-offsets", BONDS, "BondList.concatenate", "merged_bonds[start:stop, :2] += cum_atom_count",
-           "merged_bonds[start:stop, :2] += cum_atom_count" in txt
+           has_code(bc, "merged_bonds[start:stop, :2] += cum_atom_count")
            and txt.index("merged_bonds[start:stop, :2] += cum_atom_count") < txt.index("cum_atom_count += bond_list._atom_count"),
            "index offset must be added to the two index columns before the atom count is cumulated",
            bc.lineno)
